@@ -22,12 +22,15 @@ def run(c):
 
     return c.finish(
         rule="(1) Group level: random limits blocks (0-2 concurrency/rate directives per scope, N in -3..3, reduced MaxBuckets 1-3 or 20010, reap interval passed/not passed), "
-        "6-35 TakeMsg/TakeDest/ReleaseMsg/ReleaseDest calls over 2-6 ip/domain keys executed one at a time on the REAL limits.Group (a call parked in a limiter wait is "
+        "6-35 TakeMsg/TakeDest/ReleaseMsg/ReleaseDest calls over 2-6 source addresses / domains executed one at a time on the REAL limits.Group (a call parked in a limiter wait is "
         "cancelled = time-out); result of every call and the channel length of every limiter after it compared with the Lean model; (2) BucketSet level with a simulated clock; "
         "(3) SMTP sessions on the real endpoint (both reject modes, raw/normalised sender spellings, sessions ending at MAIL, RCPT, DATA, RSET, QUIT, time-outs) and (4) remote "
         "deliveries against scripted SMTP servers (connection dead before the greeting; MAIL, every RCPT - first or later one of a fresh, reused or pooled connection - and DATA "
         "each accepted / refused / answered 421 / connection dropped / command timed out; REQUIRETLS and TLS-Required:No deliveries; connection failures, limit time-outs; more "
-        "recipients, Commit and Abort afterwards), group occupancy after every command compared with the model; (5) 1-64 concurrent goroutines: occupancy counters per scope key, leak and full-capacity probes after quiescence. distinct = distinct op lines",
+        "recipients, Commit and Abort afterwards), group occupancy after every command compared with the model; (5) 1-64 concurrent goroutines: occupancy counters per scope key, leak and full-capacity probes after quiescence. "
+        "Source addresses in (1), (3), (4), (5): IPv4, IPv6 incl. several hosts of one /64 and the network address itself, IPv4-mapped IPv6 next to the plain IPv4 form, ::1/link-local/NAT64/6to4 "
+        "(SMTP peers get them through a listener that rewrites RemoteAddr); the bucket key the code derives from each address in TakeMsg, in its roll-back and in ReleaseMsg is read off the real ip bucket table "
+        "(k.<addr>.<take>.<undo>.<rel> tokens of the op lines = the model's IpKeys) and must be one and the same (C11/key-law = hypothesis IpKeys.Lawful of the theorems). distinct = distinct op lines",
         explanation="theorems over all configurations, any number of goroutines and keys, all interleavings at channel-operation granularity, all session/delivery scripts; "
         "model tied to the code by differential runs",
         search=search,
